@@ -1,8 +1,9 @@
 // C17 (part 1 of 3) - index maps: multidim_index_sequence<2|3>::flatten / reshape / iteration,
 // array3D::longProduct / longIndex / coordsOf / for_each, ActualArray3D::indexOf / numElements.
 //
-//   index_small     SWEEP  every extent in [0..N]^3 and [0..M]^2, every coordinate and every flat index
-//   for_each_small  SWEEP  every region [lower,upper) with lower,upper in [A..B]^3 (empty, inverted, single
+//   index_small     SWEEP  every extent in [0..18]^3 and [0..80]^2 (thorough [0..28]^3, [0..160]^2), every
+//                          coordinate and every flat index; zero extents for iteration only
+//   for_each_small  SWEEP  every region [lower,upper) with lower,upper in [-3..4]^3 (thorough [-3..6]^3: empty, inverted, single
 //                          cell, full, arbitrary sub-boxes, negative coordinates), all three overloads
 //   mdis3_large / mdis2_large / long3_large   rapidcheck: extents whose products reach 2^31 .. 2^63
 //   for_each_limits rapidcheck: small regions placed anywhere in the int range (incl. INT_MIN / INT_MAX)
